@@ -33,6 +33,18 @@ pub fn streams() -> Vec<(String, Vec<u8>, usize, bool)> {
         let l = b.len();
         v.push((n.to_string(), b, l, true));
     }
+    // opaque client-chosen fields (random, session id, an extension body) that contain bytes reading like the start of a
+    // handshake record: a cut exactly in front of them must not restart anything
+    {
+        let mut h = typical.clone();
+        h.exts.push(Ext::Other(0x0033, vec![0x16, 0x03, 0x04, 0x00, 0x20, 0x01, 0x00, 0x00, 0x1c, 0x03, 0x03, 0x16, 0x03, 0x00]));
+        let mut b = tls::bytes(&h);
+        b[11..17].copy_from_slice(&[0x16, 0x03, 0x01, 0x02, 0x00, 0x01]);
+        b[44..50].copy_from_slice(&[0x16, 0x03, 0x03, 0x00, 0x40, 0x01]);
+        b[60..65].copy_from_slice(&[0x16, 0x03, 0x02, 0xff, 0xff]);
+        let l = b.len();
+        v.push(("record-header-bytes-inside-opaque-fields".to_string(), b, l, true));
+    }
     // hello followed by further records in the same stream
     let mut with_tail = tls::bytes(&typical);
     let l = with_tail.len();
@@ -283,7 +295,7 @@ pub fn run(thorough: bool) -> Outcome {
     }
     Outcome {
         report: total,
-        rule: "every in-order partition with first segment >= 5 bytes: all 2-partitions of every stream (6 hellos up to the 16 KiB record, hello followed by CCS+application data, 4 non-hello records), all 3-partitions of streams <= 600 B (<= 2000 B thorough), field-boundary 3-partitions of long hellos, the all-1-byte partition, all k-partitions (k <= 4, 6 thorough) of the minimal hello; reader API and packet-level pipeline (fresh flow table), analyze_pcap on every 2-partition of the typical hello; distinct = distinct (stream, per-segment result pattern)".into(),
+        rule: "every in-order partition with first segment >= 5 bytes: all 2-partitions of every stream (7 hellos up to the 16 KiB record, one whose random, session id and an extension body contain bytes that read like handshake record headers, hello followed by CCS+application data, 4 non-hello records), all 3-partitions of streams <= 600 B (<= 2000 B thorough), field-boundary 3-partitions of long hellos, the all-1-byte partition, all k-partitions (k <= 4, 6 thorough) of the minimal hello; reader API and packet-level pipeline (fresh flow table), analyze_pcap on every 2-partition of the typical hello; distinct = distinct (stream, per-segment result pattern)".into(),
         exhaustive: true,
         bounds: json!({"streams": ss.iter().map(|x| (x.0.clone(), x.1.len())).collect::<Vec<_>>(), "max_parts_minimal_hello": maxk + 1}),
     }
